@@ -337,7 +337,7 @@ Qed.
 Lemma rc_length : forall nc (labels : list Z) m C,
   contractb (WRandomClass nc m) C labels = true -> length (rc_classes nc (length labels) m) = length labels.
 Proof.
-  intros nc labels m C H. destruct m as [d|p|W]; simpl in H.
+  intros nc labels m C H. destruct m as [d|p|W]; unfold contractb in H.
   - apply andb_prop in H. destruct H as [H _]. now apply len_is_true in H.
   - apply andb_prop in H. destruct H as [H _]. apply andb_prop in H. destruct H as [Hnc Hl].
     apply len_is_true in Hl. simpl. rewrite firstn_length, concat_repeat_length, Hl.
@@ -376,4 +376,319 @@ Proof.
       repeat (apply andb_prop in Hc; destruct Hc as [Hc ?]); now apply len_is_true.
   - inversion Hl; subst. eapply rc_coherent; eassumption.
   - inversion Hl; subst. apply se_coherent.
+Qed.
+
+(* ------------------------------------------------------------------ *)
+(* (2) labels lie in the announced range                               *)
+(* ------------------------------------------------------------------ *)
+Lemma forallb_In : forall A (f : A -> bool) l x, forallb f l = true -> In x l -> f x = true.
+Proof. intros A f l x H. now apply forallb_forall. Qed.
+
+Lemma label_okb_true : forall u hi y, label_okb u hi y = true <-> (0 <= y < hi \/ (u = true /\ y = -1)).
+Proof. intros. unfold label_okb, in_rangeb. destruct u; lia. Qed.
+
+Lemma ceil_div_exact : forall C k, 0 < k -> C mod k = 0 -> ceil_div C k * k = C.
+Proof.
+  intros C k Hk Hm. unfold ceil_div.
+  assert (E : C = k * (C / k)) by (now apply Z.div_exact; [lia|]).
+  rewrite E at 1. replace (k * (C / k) + k - 1) with ((k - 1) + (C / k) * k) by lia.
+  rewrite Z.div_add by lia. rewrite Z.div_small by lia. lia.
+Qed.
+
+Lemma div_lt_ceil : forall C k x, 0 < k -> 0 <= x < C -> 0 <= x / k < ceil_div C k.
+Proof.
+  intros C k x Hk Hx. unfold ceil_div.
+  replace (C + k - 1) with ((C - 1) + 1 * k) by lia. rewrite Z.div_add by lia.
+  pose proof (Z.div_le_mono x (C - 1) k Hk ltac:(lia)).
+  pose proof (Z.div_pos x k ltac:(lia) Hk). lia.
+Qed.
+
+Lemma ceil_div_pos : forall C k, 0 < k -> 0 < C -> 0 < ceil_div C k.
+Proof. intros. pose proof (div_lt_ceil C k 0 H ltac:(lia)). lia. Qed.
+
+Lemma cg_table0_in : forall C k g, In g (cg_table0 C k) -> 0 <= g < ceil_div C k.
+Proof.
+  intros C k g H. unfold cg_table0 in H. apply in_flat_map in H. destruct H as [x [Hx Hg]].
+  apply repeat_spec in Hg. subst. now apply zrange_in.
+Qed.
+
+Lemma cg_range : forall C p labels idx,
+  contractb (WClassGroups p) C labels = true -> (idx < length labels)%nat ->
+  0 <= cg_getitem C p labels idx < C.
+Proof.
+  intros C p labels idx H Hidx. unfold contractb in H.
+  apply andb_prop in H. destruct H as [H Hdraw].
+  apply andb_prop in H. destruct H as [H Hlab].
+  apply andb_prop in H. destruct H as [H Hmod].
+  apply andb_prop in H. destruct H as [Hk HC].
+  apply Z.ltb_lt in Hk. apply Z.ltb_lt in HC. apply Z.eqb_eq in Hmod.
+  pose proof (ceil_div_exact C (cg_cpg p) Hk Hmod) as HG.
+  pose proof (ceil_div_pos C (cg_cpg p) Hk HC) as HGpos.
+  unfold cg_getitem, cg_map_cls.
+  set (g := nthZ (nth idx labels 0) (cg_table C p) 0).
+  assert (Hg : 0 <= g < ceil_div C (cg_cpg p)).
+  { unfold g. destruct (nthZ_in_or_default _ (nth idx labels 0) (cg_table C p) 0) as [Hin | ->]; [|lia].
+    revert Hin. generalize (nthZ (nth idx labels 0) (cg_table C p) 0). intros x Hin.
+    unfold cg_table in Hin. destruct (cg_shuffle p).
+    - apply in_rangeb_true. eapply forallb_In; eassumption.
+    - now apply cg_table0_in. }
+  pose proof (Z.mod_pos_bound (nth idx (idx_within labels) 0) (cg_cpg p) Hk) as Hr.
+  clearbody g. nia.
+Qed.
+
+Lemma sc_range : forall C p labels idx,
+  contractb (WSuperclass p) C labels = true -> (idx < length labels)%nat ->
+  0 <= sc_getitem C p labels idx < sc_shape C p.
+Proof.
+  intros C p labels idx H Hidx. unfold contractb in H.
+  apply andb_prop in H. destruct H as [H Hdraw].
+  apply andb_prop in H. destruct H as [H Hlab].
+  apply andb_prop in H. destruct H as [Hk Hs].
+  apply Z.ltb_lt in Hk. apply Z.leb_le in Hs.
+  assert (Hy : 0 <= nth idx labels 0 < C).
+  { apply in_rangeb_true. eapply forallb_In; [eassumption|]. now apply nth_In. }
+  unfold sc_getitem, sc_map_cls, sc_shape, sc_og.
+  set (x := nthZ (nth idx labels 0) (sc_permv C p) 0).
+  assert (Hx : 0 <= x < C).
+  { unfold x. destruct (nthZ_in_or_default _ (nth idx labels 0) (sc_permv C p) 0) as [Hin | ->]; [|lia].
+    revert Hin. generalize (nthZ (nth idx labels 0) (sc_permv C p) 0). intros z Hin.
+    unfold sc_permv in Hin. destruct (sc_shuffle p).
+    - apply in_rangeb_true. eapply forallb_In; eassumption.
+    - now apply zrange_in. }
+  pose proof (div_lt_ceil C (sc_cps p) x Hk Hx) as Hc.
+  clearbody x. set (c := x / sc_cps p) in *. set (og := ceil_div C (sc_cps p)) in *.
+  destruct (1 <? sc_splits p) eqn:E.
+  - apply Z.ltb_lt in E.
+    pose proof (Z.mod_pos_bound (nth idx (sc_iw p labels) 0) (sc_splits p) ltac:(lia)) as Hr.
+    clearbody c og. nia.
+  - apply Z.ltb_ge in E. clearbody c og. nia.
+Qed.
+
+Lemma where3_Forall : forall (P : Z -> Prop) a x y,
+  (forall z, In z x -> P z) -> (forall z, In z y -> P z) -> forall z, In z (where3 a x y) -> P z.
+Proof.
+  induction a as [|b a IH]; intros x y Hx Hy z Hz; simpl in Hz; [contradiction|].
+  destruct x as [|u x]; [contradiction|]. destruct y as [|v y]; [contradiction|].
+  destruct Hz as [<-|Hz].
+  - destruct b; [apply Hx|apply Hy]; now left.
+  - eapply (IH x y); [| |eassumption]; intros; [apply Hx|apply Hy]; now right.
+Qed.
+
+Lemma labels_in_range_all : forall w C labels,
+  contractb w C labels = true ->
+  forall idx, (idx < length labels)%nat ->
+  label_okb (allows_unlabeled w) (w_shape w C) (w_getitem w C labels idx) = true.
+Proof.
+  intros w C labels Hc idx Hidx. destruct w.
+  - (* class groups *) apply label_okb_true. left. simpl. now apply cg_range.
+  - (* superclass *) apply label_okb_true. left. simpl. now apply sc_range.
+  - (* swap *)
+    simpl. unfold contractb in Hc.
+    apply andb_prop in Hc. destruct Hc as [Hc Hlab].
+    apply andb_prop in Hc. destruct Hc as [Hc Hnew].
+    apply andb_prop in Hc. destruct Hc as [Ha Hn].
+    apply len_is_true in Ha. apply len_is_true in Hn.
+    unfold sw_getitem.
+    apply (where3_Forall (fun z => label_okb true C z = true) (sw_apply p) (sw_new p) labels).
+    + intros z Hz. apply label_okb_true. left. apply in_rangeb_true. eapply forallb_In; eassumption.
+    + intros z Hz. eapply forallb_In; eassumption.
+    + apply nth_In. unfold sw_classes. now rewrite (where3_length _ _ _ (length labels)).
+  - (* overwrite *)
+    simpl. unfold contractb in Hc. apply andb_prop in Hc. destruct Hc as [Hl Hcl].
+    apply len_is_true in Hl. unfold ow_getitem. eapply forallb_In; [eassumption|].
+    apply nth_In. lia.
+  - (* all-gather *)
+    simpl. unfold contractb in Hc.
+    apply andb_prop in Hc. destruct Hc as [Hc Hlab].
+    apply andb_prop in Hc. destruct Hc as [HW1 HW2].
+    apply Nat.leb_le in HW1. apply Nat.leb_le in HW2.
+    unfold ag_getitem. eapply forallb_In; [eassumption|]. apply nth_In.
+    rewrite ag_indices_nth by lia. apply ag_spec_lt; lia.
+  - (* pseudo label *)
+    simpl. destruct p as [pl|am|am above|topk choice]; unfold contractb in Hc; simpl.
+    + apply andb_prop in Hc. destruct Hc as [Hl Hpl]. apply len_is_true in Hl.
+      eapply forallb_In; [eassumption|]. apply nth_In. lia.
+    + apply andb_prop in Hc. destruct Hc as [Hl Ham]. apply len_is_true in Hl.
+      apply label_okb_true. left. apply in_rangeb_true.
+      eapply forallb_In; [eassumption|]. apply nth_In. lia.
+    + apply andb_prop in Hc. destruct Hc as [Hc Ham].
+      apply andb_prop in Hc. destruct Hc as [Hl _]. apply len_is_true in Hl.
+      destruct (nth idx above false); [|reflexivity].
+      apply label_okb_true. left. apply in_rangeb_true.
+      eapply forallb_In; [eassumption|]. apply nth_In. lia.
+    + apply andb_prop in Hc. destruct Hc as [_ Hrows].
+      pose proof (forallb_In _ _ _ idx Hrows ltac:(apply in_seq; lia)) as Hrow. cbv beta zeta in Hrow.
+      apply andb_prop in Hrow. destruct Hrow as [Hch Hrow]. apply in_rangeb_true in Hch.
+      apply label_okb_true. left. apply in_rangeb_true.
+      eapply forallb_In; [eassumption|].
+      unfold nthZ. destruct (nth idx choice 0 <? 0) eqn:E; [lia|]. apply nth_In. lia.
+  - (* random class *)
+    simpl. apply label_okb_true. left. unfold rc_getitem.
+    pose proof (rc_length _ _ _ _ Hc) as Hlen.
+    assert (Hin : In (nth idx (rc_classes num_classes (length labels) m) 0) (rc_classes num_classes (length labels) m))
+      by (apply nth_In; lia).
+    revert Hin. generalize (nth idx (rc_classes num_classes (length labels) m) 0). intros y Hin.
+    destruct m as [d|p|W]; unfold contractb in Hc; simpl in Hin.
+    + apply andb_prop in Hc. destruct Hc as [_ Hd]. apply in_rangeb_true. eapply forallb_In; eassumption.
+    + apply andb_prop in Hc. destruct Hc as [_ Hp]. apply in_rangeb_true.
+      apply firstn_incl in Hin. apply in_concat in Hin. destruct Hin as [q [Hq Hy]].
+      apply repeat_spec in Hq. subst q. eapply forallb_In; eassumption.
+    + apply andb_prop in Hc. destruct Hc as [Hc _]. apply andb_prop in Hc. destruct Hc as [Hnc _].
+      apply Z.ltb_lt in Hnc.
+      apply firstn_incl in Hin. apply gather_order_in in Hin. destruct Hin as [Hin | ->]; [|lia].
+      apply firstn_incl in Hin. apply in_flat_map in Hin. destruct Hin as [c [Hc' Hy]].
+      apply repeat_spec in Hy. subst. now apply zrange_in.
+  - (* semi *)
+    simpl. unfold se_getitem. destruct (existsb (Nat.eqb idx) (se_semi k perm)); [reflexivity|].
+    unfold contractb in Hc. eapply forallb_In; [eassumption|]. now apply nth_In.
+Qed.
+
+(* the generator contracts imply the range hypotheses used above *)
+Lemma permuted_in_range : forall C k d,
+  Permutation d (cg_table0 C k) -> forallb (in_rangeb (ceil_div C k)) d = true.
+Proof.
+  intros C k d H. apply forallb_forall. intros x Hx. apply in_rangeb_true.
+  apply cg_table0_in. eapply Permutation_in; eassumption.
+Qed.
+
+Lemma permutation_in_range : forall C d, Permutation d (zrange C) -> forallb (in_rangeb C) d = true.
+Proof.
+  intros C d H. apply forallb_forall. intros x Hx. apply in_rangeb_true.
+  apply zrange_in. eapply Permutation_in; eassumption.
+Qed.
+
+(* ------------------------------------------------------------------ *)
+(* structural: the mapping is a function of arguments and draws        *)
+(* ------------------------------------------------------------------ *)
+Lemma mapping_function : forall w1 w2 C labels, w1 = w2 ->
+  w_items w1 C labels = w_items w2 C labels /\ w_getall w1 C labels = w_getall w2 C labels
+  /\ w_shape w1 C = w_shape w2 C.
+Proof. intros; subst; auto. Qed.
+
+(* ------------------------------------------------------------------ *)
+(* (3) encodings over Q                                                *)
+(* ------------------------------------------------------------------ *)
+From Coq Require Import Lqa.
+Open Scope Q_scope.
+
+Definition Qn (n : nat) : Q := inject_Z (Z.of_nat n).
+
+Lemma Qn_succ : forall n, Qn (S n) == Qn n + 1.
+Proof. intros. unfold Qn. rewrite Nat2Z.inj_succ. unfold Z.succ. now rewrite inject_Z_plus. Qed.
+
+Lemma Qsum_repeat : forall b n, Qsum (repeat b n) == Qn n * b.
+Proof.
+  induction n; simpl.
+  - unfold Qn. simpl. ring.
+  - rewrite IHn, Qn_succ. ring.
+Qed.
+
+Lemma Qsum_spike : forall a b n y, (y < n)%nat -> Qsum (spike a b y n) == Qn n * b - b + a.
+Proof.
+  unfold spike. induction n; intros y Hy; [lia|].
+  destruct y; simpl.
+  - rewrite Qsum_repeat, Qn_succ. ring.
+  - rewrite IHn by lia. rewrite Qn_succ. ring.
+Qed.
+
+Lemma spike_length : forall a b y n, length (spike a b y n) = n.
+Proof. intros. unfold spike. now rewrite set_nth_length, repeat_length. Qed.
+
+Lemma spike_nth : forall a b y n j, (j < n)%nat ->
+  nth j (spike a b y n) 0 = if Nat.eqb j y then a else b.
+Proof.
+  intros. unfold spike. rewrite nth_set_nth by (now rewrite repeat_length).
+  destruct (Nat.eqb j y); [reflexivity|].
+  rewrite (nth_indep _ 0 b) by (now rewrite repeat_length). apply nth_repeat.
+Qed.
+
+Lemma spike_in : forall a b y n x, In x (spike a b y n) -> x = a \/ x = b.
+Proof.
+  unfold spike. induction y; intros n x H; destruct n; simpl in H; try contradiction.
+  - destruct H as [<-|H]; [now left|]. apply repeat_spec in H. now right.
+  - destruct H as [<-|H]; [now right|]. eapply IHy; eassumption.
+Qed.
+
+Lemma off_nonneg : forall sm C, 0 <= sm -> (0 < C)%Z -> 0 <= sm / inject_Z C.
+Proof.
+  intros sm C Hs HC. unfold Qdiv. apply Qmult_le_0_compat; [assumption|].
+  apply Qinv_le_0_compat. unfold Qle; simpl. lia.
+Qed.
+
+Lemma smooth_nonneg_lem : forall sm C y, 0 <= sm <= 1 -> (0 < C)%Z -> vec_nonneg (ls_vec sm C y).
+Proof.
+  intros sm C y Hs HC. unfold vec_nonneg. apply Forall_forall. intros x Hx.
+  unfold ls_vec in Hx. apply spike_in in Hx.
+  pose proof (off_nonneg sm C ltac:(lra) HC) as Hoff.
+  destruct Hx; subst; lra.
+Qed.
+
+Lemma smooth_sum_lem : forall sm C y, (0 <= y < C)%Z -> vec_sums_to_one (ls_vec sm C y).
+Proof.
+  intros sm C y Hy. unfold vec_sums_to_one, ls_vec.
+  rewrite Qsum_spike by lia. unfold Qn. rewrite Z2Nat.id by lia.
+  assert (Hc : ~ inject_Z C == 0) by (unfold Qeq; simpl; lia).
+  field. exact Hc.
+Qed.
+
+Lemma smooth_argmax_lem : forall sm C y, 0 <= sm <= 1 -> (0 <= y < C)%Z ->
+  is_argmax (Z.to_nat y) (ls_vec sm C y).
+Proof.
+  intros sm C y Hs Hy j Hj. unfold ls_vec in *. rewrite spike_length in Hj.
+  rewrite !spike_nth by lia. rewrite Nat.eqb_refl.
+  destruct (Nat.eqb j (Z.to_nat y)); lra.
+Qed.
+
+Lemma smooth_strict_lem : forall sm C y j, (0 <= y < C)%Z -> (j < Z.to_nat C)%nat -> j <> Z.to_nat y ->
+  (nth j (ls_vec sm C y) 0 < nth (Z.to_nat y) (ls_vec sm C y) 0 <-> sm < 1).
+Proof.
+  intros sm C y j Hy Hj Hne. unfold ls_vec.
+  rewrite !spike_nth by lia. rewrite Nat.eqb_refl.
+  apply Nat.eqb_neq in Hne. rewrite Hne. split; intros; lra.
+Qed.
+
+Lemma onehot_lem : forall C y, (0 <= y < C)%Z ->
+  vec_nonneg (oh_vec C y) /\ vec_sums_to_one (oh_vec C y) /\ is_strict_argmax (Z.to_nat y) (oh_vec C y).
+Proof.
+  intros C y Hy. unfold oh_vec. repeat split.
+  - apply Forall_forall. intros x Hx. apply spike_in in Hx. destruct Hx; subst; lra.
+  - unfold vec_sums_to_one. rewrite Qsum_spike by lia. ring.
+  - intros j Hj Hne. rewrite spike_length in Hj. rewrite !spike_nth by lia.
+    rewrite Nat.eqb_refl. apply Nat.eqb_neq in Hne. rewrite Hne. lra.
+Qed.
+
+Lemma smooth_binary_lem : forall sm, 0 <= sm <= 1 -> ~ sm == 0 ->
+  (exists q, ls_getitem sm 1 1 = EScalar q /\ (1 # 2) <= q <= 1) /\
+  (exists q, ls_getitem sm 1 0 = EScalar q /\ 0 <= q <= (1 # 2)).
+Proof.
+  intros sm Hs Hne. unfold ls_getitem.
+  destruct (Qeq_bool sm 0) eqn:E; [apply Qeq_bool_iff in E; contradiction|].
+  assert (E2 : sm / 2 == sm * (1 # 2)) by field.
+  split.
+  - exists (1 - sm / 2). split; [reflexivity|]. rewrite E2. lra.
+  - exists (0 + sm / 2). split; [reflexivity|]. rewrite E2. lra.
+Qed.
+
+(* what a re-encoding wrapper returns for sample idx encodes the label its bulk accessor shows *)
+Lemma encoding_matches_bulk_lem : forall e C labels idx,
+  (idx < length labels)%nat -> (0 <= nth idx labels 0%Z < C)%Z -> (2 <= C)%Z ->
+  match e with ESmooth sm => 0 <= sm <= 1 /\ ~ sm == 0 | EOneHot => True end ->
+  exists v, e_getitem e C labels idx = EVec v /\ length v = Z.to_nat C /\
+            vec_nonneg v /\ vec_sums_to_one v /\ is_argmax (Z.to_nat (nth idx (e_getall e labels) 0%Z)) v.
+Proof.
+  intros e C labels idx Hidx Hy HC He. unfold e_getall. destruct e as [sm|]; simpl.
+  - destruct He as [Hs Hne]. unfold ls_getitem.
+    destruct (Qeq_bool sm 0) eqn:E; [apply Qeq_bool_iff in E; contradiction|].
+    destruct (nth idx labels 0%Z =? -1)%Z eqn:E1; [lia|].
+    destruct (C =? 1)%Z eqn:E2; [lia|].
+    eexists; split; [reflexivity|]. repeat split.
+    + unfold ls_vec. now rewrite spike_length.
+    + apply smooth_nonneg_lem; [assumption|lia].
+    + now apply smooth_sum_lem.
+    + now apply smooth_argmax_lem.
+  - unfold oh_getitem. eexists; split; [reflexivity|].
+    destruct (onehot_lem C (nth idx labels 0%Z) Hy) as [H1 [H2 H3]]. repeat split; try assumption.
+    + unfold oh_vec. now rewrite spike_length.
+    + intros j Hj. destruct (Nat.eq_dec j (Z.to_nat (nth idx labels 0%Z))) as [->|Hne]; [lra|].
+      apply Qlt_le_weak. now apply H3.
 Qed.
